@@ -176,11 +176,11 @@ def explore(prog, fn_name, extra_models=(), extra_step=()):
 
 
 def explore_fn(prog, fn_path, self_label="self", step_only=(), extra_models=(), self_value=None, memo_shared=False,
-               concrete_iters=False, log_asserts=False, max_paths=None, opaque=(), adaptor_loops=False):
+               concrete_iters=False, log_asserts=False, max_paths=None, opaque=(), adaptor_loops=False, loop_bound=None):
     """-> (paths, info): explore any function; a `self` reference argument points to a symbolic object
     of its type named `self_label`; other reference arguments point to symbolic cells named after the
     parameter; value arguments are symbolic values named after the parameter."""
-    ck = (id(prog), fn_path, self_label, tuple(step_only), memo_shared, concrete_iters, log_asserts, tuple(opaque), adaptor_loops)
+    ck = (id(prog), fn_path, self_label, tuple(step_only), memo_shared, concrete_iters, log_asserts, tuple(opaque), adaptor_loops, loop_bound)
     if ck in _cache and not extra_models and self_value is None:
         return _cache[ck]
     body = prog.body(fn_path)
@@ -194,6 +194,8 @@ def explore_fn(prog, fn_path, self_label="self", step_only=(), extra_models=(), 
         it.max_paths = max_paths
     if concrete_iters:
         it.loop_bound = max(it.loop_bound, 80)
+    if loop_bound is not None:
+        it.loop_bound = max(it.loop_bound, loop_bound)
     st = State()
     args = []
     first = 1
